@@ -8,6 +8,10 @@ Model of `internal/rules/composite_subject_creator.go`, of the six authenticator
 * `Err`, `Err.is` — error values as `errorchain` builds them and `errors.Is` against a heimdall sentinel.
 * `Req`, `Strategy.get`, `extract` — where authentication data is looked for in a request and which error the
   extractors report (string level: header scheme prefix, trimming, first query / cookie value, body parameter shapes).
+  `decoderFor`, `Payload`, `Req.body` — which decoder reads the body (`contenttype.NewDecoder`: what the `Content-Type`
+  *contains*) and what the extractors see of it.
+* `TokenAnswer`, `EndpointAuth`, `authenticationFailed` — the endpoint's own authentication (`auth:` of an endpoint):
+  the error `Endpoint.CreateRequest` reports when heimdall cannot authenticate its request to the endpoint.
 * `Shape`, `BasicSite` / `JwtSite` / `IntroSite` / `GenSite` — the error values the authenticators construct (the
   vocabulary of the verdicts); `Gen/AuthnSites.lean` is regenerated from the source on every run: what `Execute`
   constructs is compared exactly, what the rest of each file constructs must be free of argument errors.
@@ -136,23 +140,61 @@ deriving DecidableEq, Repr, Inhabited
 
 /-- `Request().Body()` -/
 inductive Body where
-  /-- no body, unknown content type or undecodable: `Body()` is a string -/
+  /-- no body, no decoder for the content type, or undecodable: `Body()` is a string -/
   | none
   /-- a decoded body -/
   | map (m : List (String × BVal))
 deriving DecidableEq, Repr, Inhabited
 
+/-- the body decoders of `internal/rules/mechanisms/contenttype` -/
+inductive Format where
+  | json | form | yaml
+deriving DecidableEq, Repr, Inhabited
+
+/-- The octets of the request body as each of the three decoders reads them (go-json, `url.ParseQuery`, yaml.v3 into
+`map[string]any`); `none`: the decoder reports an error (or there is no body). What the decoders make of the octets
+lies outside heimdall; *which* of them is asked is decided by `decoderFor` on the `Content-Type` of the request. -/
+structure Payload where
+  json : Option (List (String × BVal)) := none
+  form : Option (List (String × BVal)) := none
+  yaml : Option (List (String × BVal)) := none
+deriving DecidableEq, Repr, Inhabited
+
+def Payload.readBy (p : Payload) : Format → Option (List (String × BVal))
+  | .json => p.json
+  | .form => p.form
+  | .yaml => p.yaml
+
+/-- `sub` occurs in `s` as a contiguous piece -/
+def hasInfix : List Char → List Char → Bool
+  | [], sub => sub.isEmpty
+  | c :: cs, sub => sub.isPrefixOf (c :: cs) || hasInfix cs sub
+
+/-- `strings.Contains(s, sub)` -/
+def contains (s sub : String) : Bool := hasInfix s.toList sub.toList
+
+/-- `contenttype.NewDecoder(contentType)`: the decoder is chosen by what the value of the `Content-Type` header
+*contains* — `json` (so `application/json; charset=utf-8`, `application/vnd.api+json`, `application/problem+json`,
+`text/json`, a list of media types one of which names JSON), else `application/x-www-form-urlencoded`, else `yaml`;
+compared case-sensitively; anything else has no decoder -/
+def decoderFor (contentType : String) : Option Format :=
+  if contains contentType "json" then some .json
+  else if contains contentType "application/x-www-form-urlencoded" then some .form
+  else if contains contentType "yaml" then some .yaml
+  else none
+
 /-- what the extractors can see of a request -/
 structure Req where
   /-- `req.Host` -/
   host : String := ""
-  /-- header lines in order (names in any spelling; a name may occur several times) -/
+  /-- header lines in order (names in any spelling; a name may occur several times), `Content-Type` among them -/
   headers : List (String × String) := []
   /-- decoded query parameters in order -/
   query : List (String × String) := []
   /-- cookies in order -/
   cookies : List (String × String) := []
-  body : Body := .none
+  /-- the body as the decoders read it -/
+  payload : Payload := {}
 deriving DecidableEq, Repr, Inhabited
 
 /-- `Request().Header(name)`: header names are compared in canonical form, `Host` is the host of the request, all
@@ -161,6 +203,16 @@ def Req.header (r : Req) (name : String) : String :=
   let key := canonicalKey name
   if key == "Host" then r.host
   else ",".intercalate ((r.headers.filter (fun p => canonicalKey p.1 == key)).map (·.2))
+
+/-- `Request().Body()`: the body read by the decoder the `Content-Type` header (all its lines joined by `,`) selects;
+a string — nothing an extractor can use — if there is no such decoder or it fails -/
+def Req.body (r : Req) : Body :=
+  match decoderFor (r.header "Content-Type") with
+  | none => .none
+  | some f =>
+    match r.payload.readBy f with
+    | none => .none
+    | some m => .map m
 
 /-- the first value stored under `name`, `""` if there is none (`url.Values.Get`, `http.Request.Cookie`) -/
 def firstValue (l : List (String × String)) (name : String) : String :=
@@ -466,6 +518,73 @@ def isCompactJWS (tok : String) : Bool :=
   match splitDots tok.toList with
   | [h, p, s] => isB64url h && isB64url p && isB64url s
   | _ => false
+
+/-! ## the endpoint's own authentication
+
+The identity / JWKS / introspection / metadata endpoint of an authenticator may demand that heimdall authenticates
+itself (`auth:` of the endpoint: `api_key`, `basic_auth`, `oauth2_client_credentials`). `Endpoint.CreateRequest` applies
+the strategy after the request instance was created — i.e. *after the credential of the client was found* — and
+reports its failure as "failed to authenticate request". Only `oauth2_client_credentials` can fail at request time:
+it asks the authorization server for a token (`clientcredentials.Config.Token`). -/
+
+/-- how the authorization server answers heimdall's token request (`clientcredentials.Config.fetchToken`) -/
+inductive TokenAnswer where
+  /-- `200` with a token (or a token found in the cache) -/
+  | token
+  /-- no answer: connection refused / reset -/
+  | unreachable
+  /-- no answer in time -/
+  | timedOut
+  /-- a status code other than `200` and `400` -/
+  | status (code : Nat)
+  /-- the body of the response cannot be read -/
+  | unreadable
+  /-- `400`: an error document naming the error code `error` (RFC 6749, 5.2: `invalid_request`, `invalid_client`,
+  `invalid_grant`, `unauthorized_client`, `unsupported_grant_type`, `invalid_scope`, or any other string), or a body
+  that is no JSON (`none`) -/
+  | badRequest (error : Option String)
+  /-- `200` with a body that is no JSON -/
+  | undecodable
+  /-- `200` with an error document -/
+  | errorDocument (error : String)
+deriving DecidableEq, Repr, Inhabited
+
+/-- the error `Config.Token` returns. The error document of the authorization server (`*TokenErrorResponse`) is an
+error value of its own type: it matches no heimdall sentinel, whatever code it names. -/
+def TokenAnswer.failure : TokenAnswer → Option Err
+  | .token => none
+  | .unreachable => some (.chain [.kind .communication, .foreign])
+  | .timedOut => some (.chain [.kind .timeout, .foreign])
+  | .status _ => some (.chain [.kind .communication])
+  | .unreadable => some (.chain [.kind .internal, .foreign])
+  | .badRequest (some _) => some (.chain [.kind .communication, .foreign])
+  | .badRequest none => some (.chain [.kind .communication])
+  | .undecodable => some (.chain [.kind .internal, .foreign])
+  | .errorDocument _ => some (.chain [.kind .communication, .foreign])
+
+/-- `auth:` of an endpoint -/
+inductive EndpointAuth where
+  /-- no `auth:` -/
+  | noAuth
+  /-- `api_key` (header, cookie or query): cannot fail at request time -/
+  | apiKey
+  /-- `basic_auth`: cannot fail at request time -/
+  | basicAuth
+  /-- `oauth2_client_credentials`, with the answer of the authorization server to the token request -/
+  | clientCredentials (answer : TokenAnswer)
+deriving DecidableEq, Repr, Inhabited
+
+/-- `AuthStrategy.Apply(ctx, req)` fails with this error -/
+def EndpointAuth.failure : EndpointAuth → Option Err
+  | .clientCredentials a => a.failure
+  | _ => none
+
+/-- `Endpoint.CreateRequest`: `errorchain.NewWithMessage(ErrInternal, "failed to authenticate request").CausedBy(err)` -/
+def authenticationFailed (e : Err) : Err := .chain [.kind .internal, e]
+
+/-- `MetadataEndpoint.Get`: `errorchain.NewWithMessage(ErrInternal, "failed creating oauth2 server metadata
+request").CausedBy(err)` around the error of `CreateRequest` -/
+def metadataRequestFailed (e : Err) : Err := .chain [.kind .internal, e]
 
 /-! ## the world outside heimdall -/
 
